@@ -169,10 +169,16 @@ def load(features="", repo=None, quiet=False, lane=None):
                 os.rename(pk + ".tmp", pk)
                 os.unlink(js)
                 ran = True
-                # keep the cache small: drop all but the 24 most recent fact files
-                olds = sorted(glob.glob(os.path.join(CACHE, "facts", "*.pickle")), key=os.path.getmtime)
+                # keep the cache small: drop old fact files (never a recent one: parallel lanes of the self-test read theirs
+                # right after writing it, under their own lock)
+                olds = sorted(glob.glob(os.path.join(CACHE, "facts", "*.pickle")), key=lambda f: os.path.getmtime(f) if os.path.exists(f) else 0)
+                now_ = time.time()
                 for o in olds[:-24]:
-                    os.unlink(o)
+                    try:
+                        if now_ - os.path.getmtime(o) > 1800:
+                            os.unlink(o)
+                    except OSError:
+                        pass
             # read under the lock: a parallel lane pruning the cache must not remove the file in between
             with open(pk, "rb") as fh:
                 data = pickle.load(fh)
